@@ -15,12 +15,9 @@ pub fn get() -> FunctionDefinitions {
                 match self.0.apply(value, 0) {
                     Some(JsonValue::Array(list)) => {
                         let mut list: Vec<JsonValue> = list.clone();
-                        list.sort_by(|v1, v2| {
-                            let v1 = value.with_inupt(v1.clone());
-                            let v1 = self.0.apply(&v1, 1);
-                            let v2 = value.with_inupt(v2.clone());
-                            let v2 = self.0.apply(&v2, 1);
-                            v1.cmp(&v2)
+                        list.sort_by_cached_key(|v| {
+                            let v = value.with_inupt(v.clone());
+                            self.0.apply(&v, 1)
                         });
 
                         Some(list.into())
